@@ -1,5 +1,5 @@
 """Which functions, lemmas and bounded stand-ins decide which property (DESIGN.md sections 0 and 5)."""
-from . import abnf, core, recv, app, url
+from . import abnf, core, recv, app, url, http
 from harness import appsim
 
 GLOBAL_TRUSTED = [
@@ -10,7 +10,7 @@ GLOBAL_TRUSTED = [
 ]
 
 LEMMAS = {}
-MODULES = [abnf, recv, core, url, app]
+MODULES = [abnf, recv, core, url, http, app]
 COST = {}
 
 
